@@ -211,7 +211,10 @@ C16Multisets(t) == IF Len(t) = 1 THEN {<<t[1]>>, <<t[1], t[1]>>, <<t[1], t[1], t
 C16Sub == { [Scn("C16", F(<<L("b", "T4", "s")>>, <<>>), ins, <<>>) EXCEPT !.ndef = nd] :
               ins \in Arrangements(<<L("b", "T4", "s"), L("b", "T5", "t"), L("b", "T1", "u")>>) \cup Arrangements(<<L("b", "T4", "s"), L("b", "T4", "t")>>),
               nd \in 0..3 }
-C16Family == C16Sub \cup UNION { { [Scn("C16", F(t, <<>>), ins, <<>>) EXCEPT !.ndef = nd, !.bad = bad] :
+\* a typed nil pointer as the last value for a key (see Contract!C16)
+C16Nil == UNION { { [Scn("C16", F(<<p>>, <<>>), ins, <<>>) EXCEPT !.ndef = nd, !.bad = "typednil"] :
+                      ins \in {<<>>, <<p>>, <<p, p>>}, nd \in 0..2 } : p \in {L("a", "P1", ""), L("", "P1", ""), L("a", "P1", "s"), L("", "P1", "s")} }
+C16Family == C16Sub \cup C16Nil \cup UNION { { [Scn("C16", F(t, <<>>), ins, <<>>) EXCEPT !.ndef = nd, !.bad = bad] :
                          ins \in UNION {Arrangements(ms) : ms \in C16Multisets(t)},
                          nd \in 0..3, bad \in {"", "nilvalue", "nilarg"} } : t \in C16Targets }
 
@@ -238,5 +241,6 @@ EmitScn == (outcome.kind = "build" /\ scn.sid >= 1000000) => PrintT(<<"SCN", ToJ
 \* C07 as a design-level invariant (the contract formula lives in Contract.tla)
 M_C07 == CI!C07
 M_C07h == CI!C07h
-M_C16 == CI!C16
+\* (the model has no notion of a typed nil value: those scenarios are judged on the real traces only)
+M_C16 == scn.bad # "typednil" => CI!C16
 =============================================================================
